@@ -453,6 +453,133 @@ func MaybeShard(build func(tier string) Plan) {
 	os.Exit(0)
 }
 
+// MaybeReplay handles "-replay <file>" for replay files written by the
+// scheduler-based checks (a program plus the list of scheduler choices): the
+// program is re-executed under exactly that schedule, twice, and every call
+// record, the final node graph and the oracle's verdict are printed. It returns
+// when the argument is absent or the file is of another kind (a driver's own
+// sequential replay format); otherwise it exits: 1 = reproduced, 0 = not.
+func MaybeReplay(oracle Oracle) {
+	file := argValue("-replay")
+	if file == "" {
+		return
+	}
+
+	b, err := os.ReadFile(file)
+	if err != nil {
+		fmt.Fprintln(os.Stderr, err)
+		os.Exit(2)
+	}
+
+	var doc struct {
+		Signature map[string]string `json:"signature"`
+		Replay    struct {
+			Program *Prog  `json:"program"`
+			Choices []int8 `json:"choices"`
+		} `json:"replay"`
+	}
+
+	if err := json.Unmarshal(b, &doc); err != nil || doc.Replay.Program == nil {
+		return
+	}
+
+	p := *doc.Replay.Program
+	fmt.Printf("replay of %s\nsignature: %s\nprogram:   %s\n", file, kf.Sig(doc.Signature), p.String())
+
+	verifrt.SetMode(verifrt.ModeSched)
+
+	var keys []string
+
+	code := 0
+
+	for round := 0; round < 2; round++ {
+		o, x, err := RunScheduled(p, doc.Replay.Choices)
+		if err != nil || x.Res.BadReplay {
+			fmt.Fprintln(os.Stderr, "replay: the schedule could not be followed (the code under test takes other locks now):", err)
+			os.Exit(2)
+		}
+
+		keys = append(keys, o.Key(p))
+
+		if round == 1 {
+			break
+		}
+
+		for _, l := range sched.FormatSchedule(o.Points) {
+			fmt.Println("  sched:", l)
+		}
+
+		for _, r := range o.Recs {
+			fmt.Printf("  T%d %-40s -> %s %s  [steps %d..%d]\n", r.Thread, r.Call, r.Res, r.Res.Msg, r.Inv, r.Ret)
+		}
+
+		if o.Deadlock {
+			fmt.Println("  DEADLOCK: no thread can run")
+
+			code = 1
+		}
+
+		for _, l := range o.Dump {
+			fmt.Println("  final:", l)
+		}
+
+		for _, bad := range o.Bad {
+			fmt.Println("  invariant violated:", bad)
+
+			code = 1
+		}
+
+		for _, r := range o.Recs {
+			if r.Res.Kind == "PANIC" || r.Res.Kind == "DEADLOCK" {
+				code = 1
+			}
+		}
+
+		if oracle == OrLinear && !o.Deadlock && !o.Horizon {
+			verifrt.SetMode(verifrt.ModeSeq)
+			table, err := SeqTable(p)
+			verifrt.SetMode(verifrt.ModeSched)
+
+			if err != nil {
+				fmt.Fprintln(os.Stderr, "replay:", err)
+				os.Exit(2)
+			}
+
+			for _, e := range table {
+				var rs []string
+				for _, r := range e.Recs {
+					rs = append(rs, r.Res.String())
+				}
+
+				fmt.Printf("  sequential order %v -> %s\n", e.Order, strings.Join(rs, " | "))
+			}
+
+			if ok, _ := Linearizable(p, o, table); !ok {
+				fmt.Println("  NOT LINEARIZABLE: results and final tree match no sequential order that respects returned-before-invoked")
+
+				code = 1
+			}
+
+			if TempClash(p, o) {
+				fmt.Println("  the same temporary name was handed to two callers")
+
+				code = 1
+			}
+		}
+	}
+
+	if keys[0] != keys[1] {
+		fmt.Fprintln(os.Stderr, "replay: two executions of the same schedule differ (harness error)")
+		os.Exit(2)
+	}
+
+	if code == 0 {
+		fmt.Println("replay: no violation reproduced (a data race report, if any, is printed by the race detector above)")
+	}
+
+	os.Exit(code)
+}
+
 // Totals of a plan run.
 type Totals = shardOut
 
@@ -590,6 +717,7 @@ func RunPlan(pl Plan, rep *kf.Reporter, budgetS int) (total Totals, herr string)
 // coverage keys.
 func Main(id string, level string, build func(tier string) Plan, extra func(tier string, rep *kf.Reporter) (map[string]any, error)) {
 	MaybeShard(build)
+	MaybeReplay(build("quick").Oracle)
 
 	tier := flag.String("tier", "quick", "")
 	_ = flag.String("id", id, "")
